@@ -396,6 +396,8 @@ private:
         handles_.resize(
             std::max(handles_.size(), static_cast<size_t>(max_key) + 1),
             not_present());
+        // keys of a previous heap content are no longer present.
+        std::fill(handles_.begin(), handles_.end(), not_present());
         for (size_t i = 0; i < heap_.size(); ++i)
             handles_[heap_[i]] = i;
     }
